@@ -77,25 +77,31 @@ fn root_cause(variant: &str, pert: &str, pos: &str) -> String {
     if pert == "mixed-array" { return format!("{}:any-typed-value", variant); }
     if ["setfn-scalar", "setfn-string", "setfn-mixed"].contains(&pert) { return format!("{}:set-function-of-non-iterable", variant); }
     if ["block-as-value", "scoped-as-value", "avg-as-value", "abs-as-value", "logic-block-as-value"].contains(&pert) && stat { return format!("{}:aggregate-in-compile-time-position", variant); }
+    if UNDECLARED_FAMILY.contains(&pert) { return format!("{}:reference-to-undeclared-family", variant); }
     if ["domain-var", "compound-domain-var"].contains(&pert) && stat { return format!("{}:domain-variable-in-compile-time-position", variant); }
     if pos.starts_with("objective") && !pos.contains('/') { return format!("{}:non-numeric-objective", variant); }
     format!("{}:{}@{}", variant, pert, pc)
 }
 
+/// references to a compound family that no declaration introduces: statically knowable, so an
+/// `UndeclaredVariableDomain` at transform time is a type-class failure for these
+pub const UNDECLARED_FAMILY: [&str; 6] = ["undeclared-family-var", "undeclared-family-expr", "undeclared-family-mixed", "wrong-arity-family-more", "wrong-arity-family-less", "wrong-arity-family-expr"];
+
 pub fn judge(src: &str, tags: Vec<String>, pert: &str, pos: &str) -> Case {
     let v = run_program(src);
+    let undeclared_family = UNDECLARED_FAMILY.contains(&pert) && v.tr == "err:UndeclaredVariableDomain";
     let mut c = Case::default();
     c.tags = tags;
     c.show = src.to_string();
     c.imp = format!("(tc {} transform {})", v.tc, v.tr);
     let trv = v.tr.strip_prefix("err:").unwrap_or("");
-    let class = if v.tr == "ok" { "none" } else if v.numeric_conversion { "data" } else if TYPE_CLASS.contains(&trv) { "type-class" } else { "data" };
+    let class = if v.tr == "ok" { "none" } else if v.numeric_conversion { "data" } else if TYPE_CLASS.contains(&trv) || undeclared_family { "type-class" } else { "data" };
     c.tags.push(format!("typecheck:{}", if v.tc == "ok" { "accepts" } else if v.tc.starts_with("err") { "rejects" } else { &v.tc }));
     c.tags.push(format!("transform:{}", if v.tr == "ok" { "ok".to_string() } else { format!("{}:{}", class, trv) }));
     c.tags.push(format!("perturbation:{}", pert));
     c.tags.push(format!("position:{}", pos_class(pos)));
     c.oracle = format!("sound {} {} {}", v.tc.replace("err:", "err-"), if v.tr == "ok" { "ok".to_string() } else if trv.is_empty() { v.tr.clone() } else { trv.to_string() },
-        if v.numeric_conversion { "numeric-conversion" } else { match v.applicable { Some(true) => "applicable", Some(false) => "inapplicable", None => "na" } });
+        if undeclared_family { "undeclared-family" } else if v.numeric_conversion { "numeric-conversion" } else { match v.applicable { Some(true) => "applicable", Some(false) => "inapplicable", None => "na" } });
     c.nontrivial = v.tc == "ok" || v.tr != "ok";
     if v.tc == "ok" && class == "type-class" {
         if v.applicable == Some(true) {
@@ -134,6 +140,9 @@ pub fn pool() -> Vec<(&'static str, &'static str, bool)> {
         ("neg-string", "-pS", false), ("array-plus-int", "pArr + 1", false), ("string-concat", "pS + pS", false), ("div-zero", "1 / 0", false), ("bool-times-bool", "pB * pB", false),
         ("overflow", "9223372036854775807 + 1", false), ("not-bool", "!pB", false), ("neg-bool", "-pB", false), ("tuple-plus", "pt + 1", true), ("node-plus", "pn + 1", true),
         ("infinity", "Infinity", false), ("underscore", "_", false),
+        // compound variables of a family that is declared nowhere (wrong base name / wrong number of indexes), NON-literal index
+        ("undeclared-family-var", "nofam_pi0", true), ("undeclared-family-expr", "nofam_{pi0 + 1}", true), ("undeclared-family-mixed", "nofam_1_pi0", true),
+        ("wrong-arity-family-more", "pw_pi0_pi0", true), ("wrong-arity-family-less", "pu_pn", true), ("wrong-arity-family-expr", "pb_{pi0 + 1}_1", true),
     ]
 }
 
@@ -242,6 +251,74 @@ fn expr_cases(r: &mut Rng, n: usize) -> Vec<Case> {
         }
         if tc && ev == "(panic)" { c.sig = Some("panic:operator-core:unop:neg".into()); c.impl_violation = Some(format!("accepted operator expression panics: {}", c.show)); }
         out.push(c);
+    }
+    out
+}
+
+/// tuple destructuring: every kind of element × pattern length × `_` placement × position.  Judged like every
+/// program (accepted ⇒ no type-class failure; for elements of statically known arity an over-long pattern is a
+/// type-class failure even though the Rust reports it as `Other`), and diffed against the model's static rule
+/// (`IterableSet::variable_types`) and runtime rule (`to_primitive_set` + `apply_tuple`).
+fn destructure_cases() -> Vec<Case> {
+    let mut out = vec![];
+    for d in destructure_programs(true) {
+        let v = run_program(&d.src);
+        let mut c = Case::default();
+        let tc = if v.tc == "ok" { "(ok)".to_string() } else { format!("(err {})", v.tc.trim_start_matches("err:")) };
+        let dynv = if v.tr == "ok" { "none".to_string() } else { v.tr.trim_start_matches("err:").to_string() };
+        let comps = if d.source == "not-iterable" { "noniter".to_string() } else { format!("({})", d.comps.iter().map(|c| match c { Some(n) => n.to_string(), None => "scalar".into() }).collect::<Vec<_>>().join(" ")) };
+        c.req = format!("pattern {} {} {} {}", d.static_kind, if d.tuple { "tuple" } else { "single" }, d.vars.len(), comps);
+        c.imp = format!("(check {} dyn {})", tc, dynv);
+        c.show = format!("{}\n=> {}", d.src, c.imp);
+        c.tags = vec!["stream:destructuring".into(), format!("destructure-source:{}", d.source), format!("destructure-position:{}", d.position),
+            format!("destructure-vars:{}{}", d.vars.len(), if d.vars.iter().any(|x| x == "_") { "+underscore" } else { "" }),
+            format!("typecheck:{}", if v.tc == "ok" { "accepts" } else { "rejects" }), format!("transform:{}", dynv)];
+        c.nontrivial = v.tc == "ok";
+        let over_long_static = d.static_arity && v.tr == "err:Other" && v.detail.contains("Cannot destructure");
+        let flag = if over_long_static { "static-arity-destructure" } else { "na" };
+        c.oracle = format!("sound {} {} {}", v.tc.replace("err:", "err-"), if v.tr == "ok" { "ok".to_string() } else { dynv.clone() }, flag);
+        if v.tc == "ok" && (over_long_static || (TYPE_CLASS.contains(&dynv.as_str()) && !v.numeric_conversion)) {
+            c.sig = Some(format!("{}:destructuring-pattern-longer-than-element", dynv));
+            c.impl_violation = Some(format!("type checker accepts a destructuring pattern of {} names over {} (static kind {}), transform fails: {}", d.vars.len(), d.source, d.static_kind, v.detail));
+        }
+        if v.tc == "panic" { c.tags.push("panic".into()); }
+        out.push(c);
+    }
+    out
+}
+
+/// static declaredness of compound variables (`CompoundVariable` arm of `type_check`): declared families
+/// x_i (1 index), u_i_j (2), the literal name y_1 and z; references with literal / non-literal indexes
+fn compound_cases() -> Vec<Case> {
+    let mut out = vec![];
+    // (source text of one index, Some(fragment) when it is a literal)
+    let idx_forms: [(&str, Option<&str>); 5] = [("_1", Some("1")), ("_i", None), ("_{i + 1}", None), ("_{\"1\"}", Some("1")), ("_2", Some("2"))];
+    let mut lists: Vec<Vec<usize>> = vec![];
+    for a in 0..idx_forms.len() { lists.push(vec![a]); for b in 0..idx_forms.len() { lists.push(vec![a, b]); } }
+    lists.push(vec![0, 1, 4]); lists.push(vec![1, 1, 1]); lists.push(vec![0, 4, 0]);
+    for base in ["x", "u", "y", "q", "z"] {
+        for l in &lists {
+            let reference = format!("{}{}", base, l.iter().map(|k| idx_forms[*k].0).collect::<String>());
+            let src = format!("min sum(i in 0..2) {{ {} }}\ns.t.\n    z >= 0\ndefine\n    z as Real\n    x_i as Real for i in 0..4\n    u_i_j as Real for i in 0..4, j in 0..4\n    \\y_1 as Real\n", reference);
+            let v = run_program(&src);
+            let tc = if v.tc == "ok" { "(ok)".to_string() } else { format!("(err {})", v.tc.trim_start_matches("err:")) };
+            let mut c = Case::default();
+            c.req = format!("cvcheck (fams (\"x\" 1) (\"u\" 2)) (statics \"z\" \"y_1\") {} ({})", sx::q(base),
+                l.iter().map(|k| match idx_forms[*k].1 { Some(f) => format!("(lit {})", sx::q(f)), None => "dyn".into() }).collect::<Vec<_>>().join(" "));
+            c.imp = tc.clone();
+            c.show = format!("{}  [{}] => tc {} transform {}", reference, src.replace('\n', " | "), tc, v.tr);
+            let dynv = v.tr.trim_start_matches("err:").to_string();
+            c.tags = vec!["stream:compound-declaredness".into(), format!("cv-typecheck:{}", if v.tc == "ok" { "accepts" } else { "rejects" }), format!("cv-transform:{}", if v.tr == "ok" { "ok" } else { &dynv })];
+            c.nontrivial = v.tc == "ok";
+            // accepted reference that the expanded domain does not contain although its family is declared nowhere
+            let family_declared = (base == "x" && l.len() == 1) || (base == "u" && l.len() == 2);
+            if v.tc == "ok" && v.tr == "err:UndeclaredVariableDomain" && !family_declared {
+                c.sig = Some("UndeclaredVariableDomain:reference-to-undeclared-family".into());
+                c.impl_violation = Some(format!("type checker accepts `{}` although no declaration introduces the family; transform: {}", reference, v.detail));
+            }
+            c.oracle = format!("sound {} {} {}", v.tc.replace("err:", "err-"), if v.tr == "ok" { "ok".to_string() } else { dynv.clone() }, if !family_declared && v.tr == "err:UndeclaredVariableDomain" { "undeclared-family" } else { "na" });
+            out.push(c);
+        }
     }
     out
 }
@@ -395,6 +472,8 @@ pub fn generate(seed: u64, n: usize, thorough: bool, corpus: Option<&str>) -> Ve
     // ---- correspondence with the Lean model
     for mut c in pre_reflect::static_cases() { c.tags.push("stream:operator-tables".into()); cases.push(c); }
     cases.extend(builtin_cases(thorough));
+    cases.extend(destructure_cases());
+    cases.extend(compound_cases());
     cases.extend(expr_cases(&mut r, if thorough { 20000 } else { 2000 }));
     let _ = (BinOp::Add, UnOp::Neg);
     cases
